@@ -261,11 +261,5 @@ Definition has_fapplied (g : ngroup fcond) : bool :=
   existsb (fun kv => match snd kv with FApplied _ => true | _ => false end) (n_conds g).
 (* the field-name condition "processing_item_applied" is not used to gate a field-name transformation *)
 Definition tracking_safe (it : item) : bool := negb (is_renaming (i_tr it) && has_fapplied (i_field it)).
-(* no 1:n field name mapping *)
-Definition no_one_to_many (it : item) : bool :=
-  match i_tr it with
-  | TFieldMap m => forallb (fun kv => match snd kv with MMany _ => false | _ => true end) m
-  | _ => true
-  end.
 (* the observable part of the state: the rule and the pipeline state (not the by-name bookkeeping) *)
 Definition same_obs (a b : world) : Prop := w_rule a = w_rule b /\ p_state (w_ps a) = p_state (w_ps b).
